@@ -105,39 +105,74 @@ def asp_items(g, ft, pr):
 
     def op():
         fn = get_def(pr, 'angular_spectrum')
-        body = [s for s in fn.body if not (isinstance(s, ast.Expr) and isinstance(s.value, ast.Constant))]
-        txt = [u(s) for s in body]
-        want = ['if tf is not None:\n    return fft.ifft2(fft.fft2(field) * tf)',
-                'if Q != 1:\n    field = pad2d(field, Q=Q)',
-                'transfer_function = angular_spectrum_transfer_function(field.shape, wvl, dx, z)',
-                'forward = fft.fft2(field)',
-                'return fft.ifft2(forward * transfer_function)']
-        ok = txt == want
-        if not ok:
-            # accept any body that still ends in ifft2(fft2(field) * transfer_function(field.shape, wvl, dx, z))
-            (r1, r2) = find_returns(fn) if len(find_returns(fn)) == 2 else (None, None)
-            env = local_env(fn)
-            if r2 is None:
-                raise Untranslatable(f'angular_spectrum body: {txt}')
-            r = u(resolve(r2, env))
-            if r != 'fft.ifft2(fft.fft2(field) * angular_spectrum_transfer_function(field.shape, wvl, dx, z))':
-                raise Untranslatable(f'angular_spectrum returns {r}')
-            ok = True
-        fs = get_def(pr, 'Wavefront.free_space')
-        (c,) = find_calls(fs, 'angular_spectrum')
-        args = {k.arg: u(k.value) for k in c.keywords}
-        ok2 = u(c.args[0]) == 'self.data' and args == {'wvl': 'self.wavelength', 'dx': 'self.dx', 'z': 'dz', 'Q': 'Q', 'tf': 'tf'}
-        if not ok2:
-            raise Untranslatable(f'free_space call not recognised: {u(c)}')
-        return (f'def aspIsIfft2OfFft2TimesTf : Bool := {"true" if ok else "false"}\n'
-                f'def freeSpaceDelegates : Bool := {"true" if ok2 else "false"}')
+        rets = sorted((n for n in ast.walk(fn) if isinstance(n, ast.Return) and n.value is not None), key=lambda n: n.lineno)
+        rets = [n.value for n in rets]
+        if len(rets) != 2:
+            raise Untranslatable(f'angular_spectrum has {len(rets)} return statements')
+        env = local_env(fn)
+
+        def flags(r, want_tf):
+            """ifft2(fft2(field) * <tf>) -> (fwd ortho?, inv ortho?)"""
+            r = resolve(r, env)
+            if not (isinstance(r, ast.Call) and u(r.func).split('.')[-1] == 'ifft2' and len(r.args) == 1):
+                raise Untranslatable(f'not an ifft2 call: {u(r)[:70]}')
+            kw_i = {k.arg: k.value for k in r.keywords}
+            prod = r.args[0]
+            if not (isinstance(prod, ast.BinOp) and isinstance(prod.op, ast.Mult)):
+                raise Untranslatable(f'ifft2 argument is not a product: {u(prod)[:70]}')
+            a, b = prod.left, prod.right
+            if not (isinstance(a, ast.Call) and u(a.func).split('.')[-1] == 'fft2'):
+                a, b = b, a
+            if not (isinstance(a, ast.Call) and u(a.func).split('.')[-1] == 'fft2' and len(a.args) == 1 and u(a.args[0]) == 'field'):
+                raise Untranslatable(f'no fft2(field) factor: {u(prod)[:70]}')
+            kw_f = {k.arg: k.value for k in a.keywords}
+            if u(b).replace(' ', '') != want_tf:
+                raise Untranslatable(f'transfer-function factor is {u(b)[:70]}')
+
+            def ortho(kw):
+                if set(kw) - {'norm'}:
+                    raise Untranslatable(f'extra keywords {sorted(kw)}')
+                if 'norm' not in kw:
+                    return False
+                if not isinstance(kw['norm'], ast.Constant) or kw['norm'].value not in (None, 'backward', 'ortho'):
+                    raise Untranslatable('norm keyword not recognised')
+                return kw['norm'].value == 'ortho'
+            return ortho(kw_f), ortho(kw_i)
+        f_tf = flags(rets[0], 'tf')
+        f_z = flags(rets[1], 'angular_spectrum_transfer_function(field.shape,wvl,dx,z)')
+        # the precomputed-tf branch comes first and is guarded by `tf is not None`; padding by `Q != 1` only on the z branch
+        ifs = [n for n in fn.body if isinstance(n, ast.If)]
+        if len(ifs) != 2 or u(ifs[0].test).replace(' ', '') != 'tfisnotNone' or u(ifs[1].test).replace(' ', '') != 'Q!=1' \
+                or [u(x).replace(' ', '') for x in ifs[1].body] not in (['field=pad2d(field,Q=Q)'], ['field=pad2d(field,Q)']):
+            raise Untranslatable('guards of angular_spectrum not recognised')
+        b = lambda x: 'true' if x else 'false'
+        return (f'def aspOpFlagsTf : AspOpFlags := {{ fwdOrtho := {b(f_tf[0])}, invOrtho := {b(f_tf[1])} }}\n'
+                f'def aspOpFlagsZ : AspOpFlags := {{ fwdOrtho := {b(f_z[0])}, invOrtho := {b(f_z[1])} }}')
     g.item('asp.operator', 'prysm/propagation.py:angular_spectrum', lambda: get_def(pr, 'angular_spectrum'), op,
-           'def aspIsIfft2OfFft2TimesTf : Bool := true\ndef freeSpaceDelegates : Bool := true')
+           f'def aspOpFlagsTf : AspOpFlags := {M2}.aspOpFlagsRef\ndef aspOpFlagsZ : AspOpFlags := {M2}.aspOpFlagsRef')
+
+    def fs():
+        f_ = get_def(pr, 'Wavefront.free_space')
+        (c,) = find_calls(f_, 'angular_spectrum')
+        params = ['field', 'wvl', 'dx', 'z', 'Q', 'tf']
+        d = {}
+        for i, a in enumerate(c.args):
+            d[params[i]] = u(a)
+        for k in c.keywords:
+            d[k.arg] = u(k.value)
+        if set(d) - set(params):
+            return None
+        want = {'field': 'self.data', 'wvl': 'self.wavelength', 'dx': 'self.dx', 'z': 'dz', 'Q': 'Q', 'tf': 'tf'}
+        return all(d.get(k) == v for k, v in want.items())
+    g.fact('freeSpaceDelegates', 'prysm/propagation.py:Wavefront.free_space', fs)
 
 
 def generate(repo):
+    # C02 needs the glue of the routes it speaks about (pad, focus/unfocus, both engines); the cache and dispatch items
+    # belong to C01 only (re-proving them here would only double the alarm surface)
     return gen_c01.generate(repo, pid='C02', extra_imports=['PrysmVerif.Model.C02'], extra_opens=['Model.C02'],
-                            extra=asp_items)
+                            extra=asp_items, skip=('czt.cache', 'mdft.cache', 'focus_fixed_sampling.dispatch',
+                                                   'unfocus_fixed_sampling.dispatch'))
 
 
 if __name__ == '__main__':
